@@ -2,7 +2,7 @@
     T_src_filter.v) on concrete inputs and compares with what the real Python functions returned / raised.
     This validates the translator and Common/PyOps2.v (the trusted part of the source-equality theorems). *)
 From Coq Require Import List Bool Arith NArith ZArith.
-From DV Require Import Common.Res Common.Str Common.PyOps2 Generated.T_classes Generated.T_src_ext Generated.T_src_filter
+From DV Require Import Common.Res Common.Str Common.Jv Common.PyOps2 Generated.T_classes Generated.T_src_ext Generated.T_src_filter
      Filter.Model Filter.SrcEq.
 Import ListNotations.
 Local Open Scope nat_scope.
@@ -14,9 +14,11 @@ Inductive call :=
 | CValid (sh : list nat)
 | CMult (sh : list nat) (ns : option nat) (c : cname)
 | CPeriod (sh : list nat) (ns : option nat) (s d : cname)
-| CFilter (excl : list str) (incl : option (list str)) (key : str).     (* plain-literal patterns *)
+| CFilter (excl : list str) (incl : option (list str)) (key : str)      (* plain-literal patterns *)
+| CChanged (sh : list nat) (ns : option nat) (values : jv) (cur : option cname) (new : cname) (sd : option nat)
+| CGss (sh : list nat) (ns : option nat) (d : list (str * jv)) (key : str) (sample_base : str) (idx : nat).
 
-Inductive obs := OBool (b : bool) | ONat (n : nat) | OOptNat (o : option nat) | ONames (l : list cname) | OErr (e : err).
+Inductive obs := OBool (b : bool) | ONat (n : nat) | OOptNat (o : option nat) | ONames (l : list cname) | OVal (v : jv) | OErr (e : err).
 
 Record case := mk_case { c_call : call; c_obs : obs }.
 
@@ -42,6 +44,10 @@ Definition run (c : call) : obs :=
   | CPeriod sh ns s d => lift OOptNat (get_const_period_src classifications sh ns s d)
   | CFilter excl incl key =>
       lift OBool (make_key_regex_filter_src (literal_compile excl incl) excl incl key tt)
+  | CChanged sh ns values cur new sd =>
+      lift OVal (get_changed_class_src (fun _ => (values, cur)) classifications sh ns preserving_changes [] new sd)
+  | CGss sh ns d key sb idx =>
+      lift OVal (global_slice_subset_src (fun _ => d) classifications sh ns key sb idx)
   end.
 
 Definition cname_eqb' (a b : cname) : bool := str_eqb (fst a) (fst b) && str_eqb (snd a) (snd b).
@@ -60,6 +66,7 @@ Definition obs_eqb (a b : obs) : bool :=
   | ONat x, ONat y => x =? y
   | OOptNat x, OOptNat y => onat_eqb x y
   | ONames x, ONames y => names_eqb x y
+  | OVal x, OVal y => jv_eqb x y
   | OErr x, OErr y => err_eqb x y
   | _, _ => false
   end.
